@@ -806,16 +806,19 @@ Q_pair     == {RS(<<"pair">>,              {"I_pair", "I_pairr", "I_pairc", "Rel
               \cup {RS(<<"pair">>,         {"I_pair", "Relu"},                 X, 2, 1, T, X, T, X, T, X)}
 QuickSets == Q_negneg \cup Q_keep \cup Q_relurelu \cup Q_mul1 \cup Q_subneg \cup Q_addsum \cup Q_chain \cup Q_dbl \cup Q_fn \cup Q_pair
 \* thorough: one more step everywhere, loops in more families, depth 2 and single-node alphabets for the cheap ones
-T_negneg   == {RS(<<"negneg">>,            {"Neg"},                            X, 5, 1, T, T, X, X, X, T),
+T_negneg   == {RS(<<"negneg">>,            {"Neg"},                            X, 4, 1, T, T, X, X, X, T),
+               RS(<<"negneg">>,            {"Neg"},                            X, 5, 1, T, X, X, X, X, X),
                RS(<<"negneg">>,            {"Neg"},                            X, 3, 2, T, T, X, X, X, X),
                RS(<<"negneg">>,            {"Neg", "Relu"},                    X, 3, 1, T, X, X, X, T, X)}
 T_keep     == {RS(rs,                      {"Neg"},                            X, 4, 1, T, X, X, X, X, T) : rs \in {<<"keep">>, <<"keep", "negneg">>, <<"negneg", "keep">>}}
-T_relurelu == {RS(<<"relurelu">>,          {"Relu"},                           X, 5, 1, T, T, X, X, X, X)}
+T_relurelu == {RS(<<"relurelu">>,          {"Relu"},                           X, 4, 1, T, T, X, X, X, T),
+               RS(<<"relurelu">>,          {"Relu"},                           X, 5, 1, X, X, X, X, X, X)}
 T_mul1     == {RS(<<"mul1">>,              {"Mul1", "Mul1c"},                  c, 3, 1, T, T, X, X, X, X) : c \in BOOLEAN}
-T_subneg   == {RS(<<"subneg">>,            {"Sub", "Relu"},                    X, 3, 1, T, T, sh, X, w, X) : sh \in BOOLEAN, w \in BOOLEAN}
+T_subneg   == {RS(<<"subneg">>,            {"Sub", "Relu"},                    X, 3, 1, T, T, X, X, X, X)}
+              \cup {RS(<<"subneg">>,       {"Sub", "Relu"},                    X, 3, 1, T, X, T, X, w, X) : w \in BOOLEAN}
 T_chain    == {RS(rs,                      {"Sub", "Add"},                     X, 3, 1, T, X, X, X, X, X) : rs \in {<<"subneg", "addsum">>, <<"addsum", "subneg">>}}
               \cup {RS(rs,                {"Sub", "Neg"},                     X, 3, 1, T, X, X, X, X, X) : rs \in {<<"subneg", "negneg">>, <<"negneg", "subneg">>}}
-              \cup {RS(<<"addsum">>,      {"Add"},                            c, 3, 1, T, T, X, X, X, X) : c \in BOOLEAN}
+              \cup {RS(<<"addsum">>,      {"Add"},                            T, 3, 1, T, X, X, X, X, X)}
 T_dbl      == {RS(rs,                      {"Add", "Mul3"},                    X, 3, 1, T, X, X, cl, X, X) : rs \in {<<"dbl">>, <<"dbl", "addsum">>, <<"addsum", "dbl">>}, cl \in BOOLEAN}
               \cup {RS(<<"dbl", "subneg">>, {"Add", "Sub"},                   X, 3, 1, T, X, X, X, T, X)}
 T_fn       == {RS(<<"fn">>,                {"I_fn", "I_fnc", "Neg"},           c, 3, 1, T, X, X, X, w, X) : c \in BOOLEAN, w \in BOOLEAN}
